@@ -103,6 +103,8 @@ func runC08(e *core.Env) {
 		var text string
 		nonUTF8 := false
 		switch {
+		case i%400 == 7: // (these land on the on-disk sample) an open range with a pause entry whose summary is separated by a tab / several blanks
+			text = r.Pick("2024-03-15\n\t8:00 - ? work\n\t-30m\tlunch break\n", "2024-03-15\r\n    8:00 - ?\r\n    -30m\tlunch\r\n", "2024-03-15\n  8:00-?\n  -5m  two blanks\n    and more", "2024-03-15\n    8:00 - ?\n    0m\t\ttabs\n\n2024-03-16\n    1h\n")
 		case i%50 == 0:
 			text = r.Pick("", "\n", " \n\t\n  ", "\r\n\r\n", "   ", "\t", "\n\n\n", " \r\n")
 		default:
@@ -276,6 +278,30 @@ func c08Check(e *core.Env, r *core.Rand, text string, decorated bool, idx int64)
 					e.Violation("panic: "+pi.Site(), "ReconcileFile: "+pi.Value, w)
 				}
 				e.Count("on_disk_noop_reconciles", 1)
+				// `pause --extend` by zero minutes is defined to change nothing: byte-identical file
+				// (only on the hand-written texts, whose pause durations are spelt canonically: klog re-spells the duration it touches)
+				for _, rc := range rs {
+					if rc.OpenRange() == nil || idx%400 != 7 {
+						continue
+					}
+					_ = os.WriteFile(f, []byte(text), 0644)
+					if pi := core.Guard(func() {
+						_, rerr := ctx.ReconcileFile(app.FileOrBookmarkName(f), []reconciling.Creator{reconciling.NewReconcilerAtRecord(rc.Date())}, func(rr *reconciling.Reconciler) error {
+							return rr.ExtendPause(klog.NewDuration(0, 0))
+						})
+						if rerr != nil {
+							return // no pause to extend: not this property's subject
+						}
+						if got := readFile(f); got != text {
+							e.Violation("zero-extension-of-a-pause-changes-file", fmt.Sprintf("extending a pause by 0m rewrote the file:\n%q\nwant\n%q", trunc(got, 600), trunc(text, 600)), w)
+						} else {
+							e.Count("on_disk_zero_pause_extensions", 1)
+						}
+					}); pi != nil {
+						e.Violation("panic: "+pi.Site(), "ReconcileFile(ExtendPause 0m): "+pi.Value, w)
+					}
+					break
+				}
 				// ... and an edit that makes the file SHORTER (an open range with a long placeholder closed at a short time): what is on
 				// disk afterwards must be exactly the text the reconciler produced, nothing of the old contents may stay behind
 				for _, rc := range rs {
